@@ -359,6 +359,14 @@ pub fn run(args: &[String]) {
             failures.lock().unwrap().push((Failure { case: 0, variant: "later-connection".into(), detail: format!("a later healthy connection got {:?}", lossy(&obs.out)) }, String::new(), json!({})));
         }
     }
+    // "the service never panics": a panic inside the library's own code, also one that a worker thread survives, was counted by the hook
+    {
+        let (n, first) = lib_panics();
+        if n > 0 {
+            failures.lock().unwrap().push((Failure { case: 0, variant: "library-panic".into(),
+                detail: format!("the service's own code panicked {} time(s) while handling hostile input (first: {})", n, first.chars().take(300).collect::<String>()) }, String::new(), json!({})));
+        }
+    }
     server.stop();
     let _ = std::fs::remove_dir_all(&dir);
     let fs = failures.lock().unwrap();
